@@ -203,6 +203,10 @@ def interest_item(sim, fe, it, r, idx):
                     await asyncio.sleep(0.03)
                 log.append((tag + '-end', vl.now_ms()))
                 return verdict
+        if it.get('falsy_route_validator') and tag == 'route':
+            # a callable policy OBJECT that is falsy (it has a __len__): it is the validator given for the route all the same
+            from ..sim.appsim import FalsyCallable
+            return FalsyCallable(v)
         return v
     route_v = None
     verdict = None
@@ -401,6 +405,8 @@ def _grid_items(fe):
                 yield dict(base, empty_params=True)
             if kind != 'plain' and dg == 'correct' and isinstance(rv, list):
                 yield dict(base, attach_during=True)
+            if kind != 'plain' and dg == 'correct' and rv != 'absent' and not isinstance(rv, list):
+                yield dict(base, falsy_route_validator=True)
             if kind != 'plain' and dg == 'correct' and rv in ('absent', verdicts[0]):
                 if fe == 'v2':
                     yield dict(base, reattach=True)
